@@ -7,6 +7,7 @@ import Wormhole.Tie.SrvStmts
 import Wormhole.Tie.SrvWs
 import Wormhole.Tie.SrvSumm
 import Wormhole.Tie.SrvTop
+import Wormhole.Tie.SrvSweep
 
 namespace Wormhole.Tie
 open Wormhole Wormhole.PySrv
